@@ -115,7 +115,7 @@ class KeyGenerator:
     def generate_private_key(self, type: str) -> EllipticCurvePrivateKey | Ed25519PrivateKey | Ed448PrivateKey:
         """Generate and returns private key object."""
         if type in ("secp256r1", "secp384r1", "secp521r1"):
-            return ec.generate_private_key(KeyGenerator.supported_key_types[type])
+            return ec.generate_private_key(KeyGenerator.supported_key_types[type]())
         elif type == "ed25519":
             return Ed25519PrivateKey.generate()
         elif type == "ed448":
